@@ -185,7 +185,8 @@ def mutate(rng, text):
         lines.insert(i, ("ATOM  " if rng.random() < 0.5 else "HETATM") + l[6:17] + rng.choice(["HOH", "SO4", "H2O"]) + l[20:])
         d = "ignored residue inserted"
     elif k == 9:    # junk records
-        lines.insert(i, rng.choice(["REMARK 300 junk", "ANISOU" + l[6:], "CONECT 1 2", "", "HETATM", "ATOM", "SIGATM" + l[6:], "atom  " + l[6:]]))
+        lines.insert(i, rng.choice(["REMARK 300 junk", "ANISOU" + l[6:], "CONECT 1 2", "", "HETATM", "ATOM", "SIGATM" + l[6:], "atom  " + l[6:], "END", "END   ", "ENDMDL",
+                                    "SSBOND   1 CYS A   67    CYS A   95", "MASTER"]))
         d = "junk record"
     elif k == 10:   # short line (malformed stream)
         lines[i] = l[:rng.choice([10, 15, 17, 20, 21, 22, 27, 31, 40, 54])]
@@ -197,7 +198,8 @@ def mutate(rng, text):
         d = f"number field {col} = {bad!r}"
     elif k == 12:   # column noise in unread columns
         l2 = l.ljust(80)
-        lines[i] = l2[:54] + rng.choice(["  0.50", "  1.00", "      ", " -1.00"]) + rng.choice([" 20.00", "999.99", "      "]) + l2[66:76] + rng.choice([" C", " N", "XX", "  "]) + rng.choice(["1+", "  ", "2-"])
+        lines[i] = l2[:54] + rng.choice(["  0.50", "  1.00", "      ", " -1.00", "  0.00"]) + rng.choice([" 20.00", "999.99", "      "]) \
+            + rng.choice([l2[66:76], "      B1  ", "      A   ", "      SEGX"]) + rng.choice([" C", " N", "XX", "  "]) + rng.choice(["1+", "  ", "2-"])
         d = "column noise"
     elif k == 13:   # hybrid-36 serial
         lines[i] = l[:6] + rng.choice(["A0000", "zzzzz", "    1", "-1234", "A00a0", "     "]) + l[11:]
